@@ -3,7 +3,7 @@
    `space`/`digit` = isspace/isdigit of the C locale; head_nondigit l = l is empty or starts with a non-digit;
    after l = the state a reader leaves when it stopped in front of l (eof when l is empty, good otherwise). *)
 From Coq Require Import ZArith List.
-From C19 Require Import Model ProofsBase ProofsInt ProofsRat ProofsElt ProofsHex ProofsRefute.
+From C19 Require Import Model ProofsBase ProofsInt ProofsRat ProofsElt ProofsHex ProofsPoly ProofsRefute.
 Local Open Scope Z_scope.
 
 (* Integer: for every z, after any white space, followed by any text not starting with a digit:
@@ -49,5 +49,11 @@ Print Assumptions C19_rint_hex_roundtrip.
 (* polynomials: the reader's own text format round-trips; what the writer prints does not (known finding) *)
 Theorem C19_poly_degree_format_roundtrip : Poly_degree_format_roundtrip_stmt. Proof. exact poly_degree_format_roundtrip. Qed.
 Print Assumptions C19_poly_degree_format_roundtrip.
+(* the algebraic text Poly1Dom::write prints determines the polynomial: a reference parser recovers its non-zero terms,
+   and two coefficient vectors printed alike are equal after setdegree (indeterminate name not starting with '(' or a digit) *)
+Theorem C19_poly_text_parse : forall var, var_ok var -> Poly_text_parse_stmt var.   Proof. exact poly_text_parse. Qed.
+Print Assumptions C19_poly_text_parse.
+Theorem C19_poly_text_determines : Poly_text_determines_stmt.           Proof. exact poly_text_determines. Qed.
+Print Assumptions C19_poly_text_determines.
 Theorem C19_poly_write_read_refuted : ~ Poly_write_read_stmt.           Proof. exact poly_write_read_refuted'. Qed.
 Print Assumptions C19_poly_write_read_refuted.
